@@ -52,4 +52,13 @@ def managerIsCommitted (s : Store) (id : String) (changeHash : Hash) : Res Bool 
   | .err e => if e == eNotFound then .ok false else .err e
   | .panic x => .panic x
 
+/-- the end of `Manager.Update`: after `networkClient.CreateTransaction` succeeded with transaction `tx`, the manager itself
+    writes `m.store.Add(next, {Clock, PayloadHash, Previous, Ref, SigningTime of tx})` — the event the receiving ambassador
+    builds from the same transaction (`eventOf`) -/
+def managerOwnAdd (c : Cfg) (s : Store) (tx : Tx) (p : Published) : Res Store :=
+  match add c.store s (eventOf tx p.doc) with
+  | .ok s' => .ok s'
+  | .err e => .err ("mgr:store:" ++ e)
+  | .panic x => .panic x
+
 end Nuts.C09
